@@ -154,8 +154,23 @@ func mconnRun(mc mconnCase, idle time.Duration, alive func()) (o mconnOutcome) {
 		return mconnOutcome{verdict: "inconclusive", detail: fmt.Sprintf("%s after %.1fs", why, time.Since(start).Seconds())}
 	}
 	c1, c2 := net.Pipe()
-	defer c1.Close()
-	defer c2.Close()
+	// Tearing a connection down is not what is being examined, and it must not be
+	// waited for: MConnection.OnStop stops its timers before it closes the
+	// connection, and RepeatTimer.Stop never returns once the 2-second statistics
+	// ticker has fired while the send routine was busy (blocked in a write to a
+	// peer that no longer reads, or itself executing Stop).  So: close the pipe
+	// first (which releases a blocked send routine), stop both ends, all of it in
+	// the background.
+	var toStop []*p2p.MConnection
+	defer func() {
+		go func() {
+			c1.Close()
+			c2.Close()
+			for _, m := range toStop {
+				m.Stop()
+			}
+		}()
+	}()
 	var sc [2]*p2p.SecretConnection
 	var herr [2]error
 	var wg sync.WaitGroup
@@ -224,10 +239,9 @@ func mconnRun(mc mconnCase, idle time.Duration, alive func()) (o mconnOutcome) {
 	var sendErr atomic.Value
 	sender := p2p.NewMConnection(conf, sc[0], mconnDescs(), func(byte, []byte) {}, func(r interface{}) { sendErr.Store(fmt.Sprint(r)); notify() })
 	receiver := p2p.NewMConnection(conf, sc[1], mconnDescs(), onReceive, onRecvErr)
+	toStop = []*p2p.MConnection{sender, receiver}
 	sender.Start()
 	receiver.Start()
-	defer sender.Stop()
-	defer receiver.Stop()
 
 	seq := [2]int{}
 	sendOne := func(ch, size int, salt uint64) {
@@ -308,10 +322,8 @@ func mconnRun(mc mconnCase, idle time.Duration, alive func()) (o mconnOutcome) {
 		finished = recvErr != nil || unknown || all
 		mu.Unlock()
 	}
-	if sendersDone != nil {
-		// the senders may be blocked in Send (queue full, 10 s timeout); do not wait for them
-		sender.Stop()
-	}
+	// (if sendersDone != nil the senders may still be blocked in Send - queue full,
+	// 10 s timeout -; they are not waited for)
 	mu.Lock()
 	defer mu.Unlock()
 
